@@ -54,6 +54,9 @@ type c17Conn struct {
 	// prevGap is the silence that preceded the last answered call: a reaper pass that found the connection
 	// idle just before that call may still be on its way to closing it
 	prevGap time.Duration
+	// streakFrom: when the current run of closely spaced calls began (the send time of the first call after a
+	// silence of IdleTimeout/2 or more, or after connecting)
+	streakFrom time.Duration
 	// ansRedials is the client's reconnect count when it was last answered: after a reconnect (the client
 	// library redials a connection it has left silent for 20 s) the NEW connection has not been answered yet
 	ansRedials int
@@ -336,6 +339,9 @@ func runC17(t *testing.T, scAny any, trace bool) *Outcome {
 						cc.answered = true
 						cc.ansRedials = cl.Redials
 						cc.prevGap = sentAt - cc.lastAct
+						if cc.prevGap >= effIdle/2 || cc.streakFrom == 0 {
+							cc.streakFrom = sentAt + 1
+						}
 						cc.lastAct = now()
 						if n := st.servedOpen(); n > effMax {
 							simrt.Probe("served_above_max")
@@ -361,7 +367,7 @@ func runC17(t *testing.T, scAny any, trace bool) *Outcome {
 							o.Vio("C17.connection-reaped-while-serving", "op="+stp.Op, "client %d step %d: the server closed the connection %v after a %s call had been sent on it, without answering, although IdleTimeout is %v (the connection was not idle that long: a call had just been read from it)", ci, si, dt, stp.Op, effIdle)
 						}
 						// a connection that was being served and active is not closed without reason
-						if cc.answered && cl.Redials == cc.ansRedials && adminStarted.Load() == 0 && idleChangedAt.Load() == 0 && maxStall == 0 && sentAt-cc.lastAct < effIdle/2 && cc.prevGap < effIdle/2 && sentAt-cc.lastAct < 10*time.Second && effIdle >= 100*time.Millisecond {
+						if cc.answered && cl.Redials == cc.ansRedials && adminStarted.Load() == 0 && idleChangedAt.Load() == 0 && maxStall == 0 && sentAt-cc.lastAct < effIdle/2 && cc.prevGap < effIdle/2 && sentAt-cc.streakFrom >= 50*time.Millisecond && sentAt-cc.lastAct < 10*time.Second && effIdle >= 100*time.Millisecond {
 							// (below 100 ms the scheduler's injected delays - up to 2 ms per unlock - can by themselves
 							// keep a request in the server longer than the idle time-out)
 							o.Vio("C17.active-connection-closed", "op="+stp.Op, "client %d step %d: connection answered before and active %v ago (IdleTimeout %v) got no reply to %s: %v", ci, si, sentAt-cc.lastAct, effIdle, stp.Op, err)
